@@ -153,10 +153,13 @@ impl Monitor for C14 {
                     return;
                 }
             }
-            if outs.iter().any(|o| *o != outs[0]) {
-                same_stream_lengths = false;
-            }
-            if matches!(op, Op::Restart) && snaps[0].queues.values().filter(|q| q.recs.is_empty()).count() >= 2 {
+            // Byte counts that differ between instances are legitimate only when a GC pass wrote
+            // the position records of two or more empty queues (HashMap order, different
+            // padding).  With fewer empty queues the call itself is still compared: the
+            // streams had equal lengths when it began.
+            let empty_queues = snaps[0].queues.values().filter(|q| q.recs.is_empty()).count();
+            let counts_differ = outs.iter().any(|o| *o != outs[0]);
+            if (counts_differ || matches!(op, Op::Restart)) && empty_queues >= 2 {
                 same_stream_lengths = false;
             }
             if same_stream_lengths {
@@ -171,6 +174,9 @@ impl Monitor for C14 {
                     );
                     return;
                 }
+            }
+            if counts_differ {
+                same_stream_lengths = false;
             }
             if suts[0].log().resource_usage().disk_used_bytes as u64 > file_size {
                 rolled = true;
